@@ -47,3 +47,16 @@ Proof. intros Ed Hl. unfold py_RandomMinCRepPreOCF_c_vec2ocf. rewrite Ed. unfold
   - intros pos c acc. unfold body. cbv beta iota zeta. rewrite pinned_falsifies. reflexivity.
 Qed.
 End TieCrep.
+
+(* RandomMinCRepPreOCF.rank_world: the generated method is the lazily filled table around c_vec2ocf *)
+From InfOCF Require Import TieLazy.
+Theorem tie_crep_rank_world n D (d:dict Z cond) eta (rk:wdict (option Z)) w force : dict_values d = D -> length eta = length D ->
+  table_ok (fun w => In w (worlds n)) (fun w => Z.of_nat (ckappa D eta w)) rk -> In w (map fst rk) ->
+  exists rk', py_RandomMinCRepPreOCF_rank_world n d (map Z.of_nat eta) w force rk = Return (Z.of_nat (ckappa D eta w), rk') /\
+    map fst rk' = map fst rk /\ table_ok (fun w => In w (worlds n)) (fun w => Z.of_nat (ckappa D eta w)) rk' /\
+    wdict_find rk' w = Some (Some (Z.of_nat (ckappa D eta w))) /\ (forall w2, w2 <> w -> wdict_find rk' w2 = wdict_find rk w2).
+Proof. intros Ed Hl Hok Hin.
+  change (py_RandomMinCRepPreOCF_rank_world n d (map Z.of_nat eta) w force rk)
+    with (lazy_rank_world (py_RandomMinCRepPreOCF_c_vec2ocf n d (map Z.of_nat eta) w) w force rk).
+  apply (lazy_rank_world_spec (fun w => In w (worlds n)) (fun w => Z.of_nat (ckappa D eta w)) (fun w => py_RandomMinCRepPreOCF_c_vec2ocf n d (map Z.of_nat eta) w)); [|exact Hok|exact Hin].
+  intros w0 Hw0. apply (tie_c_vec2ocf n w0 Hw0 D d eta Ed Hl). Qed.
